@@ -196,3 +196,4 @@ def run(chk, st, tier):
                             "and replacements of runs of fields by an embedded struct (every run at the root; whole/first field in nested groups). Per variant: column tree of the real parse.Fields = base's tree = model's tree; "
                             "parquetgen output byte-identical to the base's; for a sample the variant is compiled and run with the excluded fields filled with data: files byte-identical, excluded fields zero after reading. distinct = distinct variants.")
     chk.coverage["explanation"] = "decorate_inert / embed_inline (coq/props/C14.v) prove the column tree unchanged for every insertion/replacement in the parse model."
+    chk.assumptions += ['parquetgen output is a function of the parse tree only (gen.FromStruct builds its template input from parse.Fields result, type and package names)']
